@@ -2886,3 +2886,270 @@ Lemma uniq_ok_coll_pop_full s (x : oid) (f : fid) i :
 Proof. intros M U. exact (C07Full.nd_uniq m s _ (proj1 (C07Full.good_coll_pop_full m s x f i M)) U). Qed.
 
 End UniqOk.
+
+(* a primitive command (Set / Add / Remove / Move) that raises leaves the model as it was; for Move: when the
+   elements of the collection pass the type check (the re-insertion after the pop cannot be refused) *)
+Lemma prim_raise m s c c1 e s' c2 :
+  match c with
+  | CMove x f _ _ _ => forall w, In w (vals s (x, f)) -> check_elem m f w = true
+  | CDelete _ _ _ | CCompound _ => False
+  | _ => True
+  end ->
+  can_execute m s c = (Ok true, c1) -> execute m s c1 = ((Some e, s'), c2) -> s' = s.
+Proof.
+  intros Cv HC HE.
+  destruct c as [x f v p|x f v idx|x f v idx|x f v from to| |]; try contradiction.
+  - cbn [can_execute] in HC. apply pair_eq_inv in HC. destruct HC as [_ Hc]. subst c1.
+    cbn [execute] in HE. apply pair_eq_inv in HE. destruct HE as [H1 _]. eapply set_full_raise; exact H1.
+  - cbn [can_execute] in HC. destruct (negb (base_can m x f)); [discriminate|].
+    destruct (negb (f_many (fd m f))); [discriminate|].
+    apply pair_eq_inv in HC. destruct HC as [_ Hc]. subst c1. cbn [execute] in HE.
+    destruct idx as [i|]; apply pair_eq_inv in HE; destruct HE as [H1 _]; eapply coll_add_raise; exact H1.
+  - cbn [can_execute] in HC. destruct (negb (base_can m x f)); [discriminate|].
+    destruct (negb (f_many (fd m f))); [discriminate|].
+    assert (EX : exists v1 idx1, c1 = CRemove x f v1 idx1).
+    { destruct idx as [i0|].
+      - destruct (py_get i0 (vals s (x, f))); apply pair_eq_inv in HC; destruct HC as [_ Hc]; subst c1; eauto.
+      - apply pair_eq_inv in HC; destruct HC as [_ Hc]; subst c1; eauto. }
+    destruct EX as (v1 & idx1 & Hc). subst c1. cbn [execute] in HE.
+    match type of HE with (match ?ri with _ => _ end) = _ => destruct ri as [i|e0] end.
+    + destruct (coll_pop_full m s (x, f) i) as [[[e1|] s1] w] eqn:EP;
+        apply pair_eq_inv in HE; destruct HE as [H1 _]; [|discriminate].
+      inversion H1; subst. eapply coll_pop_raise; exact EP.
+    + apply pair_eq_inv in HE. destruct HE as [H1 _]. inversion H1. reflexivity.
+  - cbn [can_execute] in HC.
+    destruct (negb (base_can m x f)); [discriminate|]. destruct (negb (f_many (fd m f))); [discriminate|].
+    assert (EX : exists v1 fr0, c1 = CMove x f v1 fr0 to).
+    { destruct (is_none v).
+      - destruct from as [i0|]; [|apply pair_eq_inv in HC; destruct HC; discriminate].
+        destruct (py_get i0 (vals s (x, f))); apply pair_eq_inv in HC; destruct HC as [_ Hc]; subst c1; eauto.
+      - destruct from as [i0|].
+        + apply pair_eq_inv in HC; destruct HC as [_ Hc]; subst c1; eauto.
+        + destruct (index_of veqb v (vals s (x, f))); apply pair_eq_inv in HC; destruct HC as [_ Hc]; subst c1; eauto. }
+    destruct EX as (v1 & fr0 & Hc). subst c1. cbn [execute] in HE. unfold do_move in HE.
+    match type of HE with (match coll_pop_full m s (x, f) ?z with _ => _ end) = _ => set (fr := z) in * end.
+    destruct (coll_pop_full m s (x, f) fr) as [[[e1|] s1] w] eqn:EP.
+    + apply pair_eq_inv in HE. destruct HE as [H1 _]. inversion H1; subst. eapply coll_pop_raise; exact EP.
+    + exfalso. destruct (pop_full_inv m s x f fr s1 w EP) as (w' & l1 & Pp & Ew). subst w.
+      apply pair_eq_inv in HE. destruct HE as [H1 _].
+      pose proof (Cv w' (py_pop_In _ _ _ _ Pp)) as Ck.
+      unfold coll_add_full in H1. rewrite Ck in H1. discriminate.
+Qed.
+
+Lemma can_execute_many m s c c1 :
+  can_execute m s c = (Ok true, c1) ->
+  match c with
+  | CAdd x f _ _ | CRemove x f _ _ | CMove x f _ _ _ => f_many (fd m f) = true
+  | _ => True
+  end.
+Proof.
+  destruct c as [x f v p|x f v idx|x f v idx|x f v from to| |]; try (intros; exact I);
+    cbn [can_execute]; destruct (negb (base_can m x f)); try discriminate;
+    destruct (f_many (fd m f)); cbn [negb]; try discriminate; reflexivity.
+Qed.
+
+(* ---------- the invariant with uniq_ok, and the covered commands with plain reference collections ---------- *)
+Definition K2 (m : mm) (s : state) : Prop := K m s /\ C07Full.uniq_ok m s.
+
+Lemma K2_obs_eq m s t : obs_eq s t -> K2 m s -> K2 m t.
+Proof.
+  intros O [HK HU]. split; [exact (K_obs_eq m s t O HK)|].
+  intros a f U. rewrite <- (proj1 O). apply HU. exact U.
+Qed.
+
+Section Lift2.
+Variable m : mm.
+Hypothesis W : wf_mm m.
+Hypothesis Hrt : ref_typed m.
+
+Definition covered5 (s : state) (c : cmd) : Prop :=
+  covered3 m s c \/
+  match c with
+  | CAdd x f _ _ | CRemove x f _ _ => f_isref (fd m f) = true /\ loose m f
+  | CMove x f v from _ => f_isref (fd m f) = true /\ loose m f /\ (is_none v = true \/ from = None)
+  | _ => False
+  end.
+
+Lemma K2_cell_wt_loose s (x : oid) (f : fid) :
+  K2 m s -> f_isref (fd m f) = true -> f_many (fd m f) = true -> cell_wt m f (vals s (x, f)).
+Proof.
+  intros [(HW & HT & _) HU] R M. unfold cell_wt. rewrite M. split.
+  - intros w Hw. exact (check_elem_of_typed m s x f w HT M Hw).
+  - intros U. apply nodupv_of_objs; [|apply HU; exact U].
+    intros w Hw. exact (many_ref_objs m Hrt s x f w HT R M Hw).
+Qed.
+
+(* uniq_ok after any primitive command that did not raise *)
+Lemma uniq_ok_exec s c c1 s' c2 :
+  match c with CDelete _ _ _ | CCompound _ => False | _ => True end ->
+  C07Full.uniq_ok m s -> can_execute m s c = (Ok true, c1) -> execute m s c1 = ((None, s'), c2) ->
+  C07Full.uniq_ok m s'.
+Proof.
+  intros Hp U HC HE. pose proof (wf_mm_wf_opp m W) as Hwf. pose proof (can_execute_many m s c c1 HC) as M.
+  destruct c as [x f v p|x f v idx|x f v idx|x f v from to| |]; try contradiction.
+  - cbn [can_execute] in HC. apply pair_eq_inv in HC. destruct HC as [_ <-].
+    rewrite (exec_set_state m s x f v p s' c2 HE). apply uniq_ok_set_full; assumption.
+  - destruct (exec_add_state m s x f v idx c1 s' c2 HC HE) as (pos & ->). apply uniq_ok_coll_add_full; assumption.
+  - destruct (exec_remove_state m s x f v idx c1 s' c2 HC HE) as (i & ->). apply uniq_ok_coll_pop_full; assumption.
+  - destruct (exec_move_state m s x f v from to c1 s' c2 HC HE) as (i & j & w & -> & _).
+    apply uniq_ok_coll_add_full; [exact Hwf|]. apply uniq_ok_coll_pop_full; assumption.
+Qed.
+
+Lemma covered3_prim s c : covered3 m s c -> match c with CDelete _ _ _ | CCompound _ => False | _ => True end.
+Proof. destruct c; try (intros; exact I); intros [[]|[[]|[]]]. Qed.
+
+Lemma covered5_exec s c c1 s' c2 :
+  K2 m s -> covered5 s c ->
+  can_execute m s c = (Ok true, c1) -> execute m s c1 = ((None, s'), c2) ->
+  inverts m c2 s s' /\ K2 m s'.
+Proof.
+  intros [HK HU] [Cv|Cv] HC HE.
+  - destruct (covered3_exec m W Hrt s c c1 s' c2 HK Cv HC HE) as (I & HK').
+    split; [exact I|]. split; [exact HK'|].
+    exact (uniq_ok_exec s c c1 s' c2 (covered3_prim s c Cv) HU HC HE).
+  - assert (Hp : match c with CDelete _ _ _ | CCompound _ => False | _ => True end)
+      by (destruct c; try exact I; contradiction).
+    pose proof (uniq_ok_exec s c c1 s' c2 Hp HU HC HE) as HU'.
+    pose proof HK as (HW & HT & HA).
+    assert (KK : forall (x : oid) (f : fid) l2, f_isref (fd m f) = true -> loose m f -> only_cell s s' (x, f) l2 ->
+                   WF m s' -> typed m s' -> K2 m s').
+    { intros x f l2 R L OC HW' HT'. split; [|exact HU']. split; [exact HW'|]. split; [exact HT'|].
+      apply (uniq_attr_refcells m s s'); [|exact HA]. intros a h Rh _. rewrite (proj1 OC). apply upd_other.
+      apply cell_neq_feat. exact (nonref_neq m h f Rh R). }
+    destruct c as [x f v p|x f v idx|x f v idx|x f v from to| |]; try contradiction.
+    + destruct Cv as (R & L). pose proof L as (M & Hc & Ho).
+      destruct (add_loose_inverts m f L s x v idx c1 s' c2 (K2_cell_wt_loose s x f (conj HK HU) R M) HC HE)
+        as (i' & _ & I & OC & _).
+      split; [exact I|]. destruct (exec_add_state m s x f v idx c1 s' c2 HC HE) as (pos & Es).
+      apply (KK x f _ R L OC); rewrite Es.
+      * apply (WF_coll_add_full m W); assumption.
+      * apply typed_coll_add_full; [exact HT | exact M | exact (opp_typed_noopp m x f Ho)].
+    + destruct Cv as (R & L). pose proof L as (M & Hc & Ho).
+      destruct (remove_loose_inverts m f L s x v idx c1 s' c2 (K2_cell_wt_loose s x f (conj HK HU) R M) HC HE)
+        as (i & w & l2 & _ & I & OC & _).
+      split; [exact I|]. destruct (exec_remove_state m s x f v idx c1 s' c2 HC HE) as (i0 & Es).
+      apply (KK x f _ R L OC); rewrite Es.
+      * apply (WF_pop m W); assumption.
+      * apply typed_coll_pop_full. exact HT.
+    + destruct Cv as (R & L & Hx). pose proof L as (M & Hc & Ho).
+      destruct (move_loose_inverts m f s x v from to c1 s' c2 L (K2_cell_wt_loose s x f (conj HK HU) R M) Hx HC HE)
+        as (fr & w & to' & l2 & _ & I & OC).
+      split; [exact I|]. destruct (exec_move_state m s x f v from to c1 s' c2 HC HE) as (i & j & w0 & Es & _).
+      apply (KK x f _ R L OC); rewrite Es.
+      * apply (WF_coll_add_full m W); [|exact M]. apply (WF_pop m W); assumption.
+      * apply typed_coll_add_full; [|exact M | exact (opp_typed_noopp m x f Ho)]. apply typed_coll_pop_full. exact HT.
+Qed.
+
+Lemma covered5_raise s c c1 e s' c2 :
+  K2 m s -> covered5 s c ->
+  can_execute m s c = (Ok true, c1) -> execute m s c1 = ((Some e, s'), c2) -> obs_eq s' s.
+Proof.
+  intros [HK HU] [Cv|Cv] HC HE.
+  - exact (covered3_raise_obs m s c c1 e s' c2 HK Cv HC HE).
+  - rewrite (prim_raise m s c c1 e s' c2); [apply obs_eq_refl | | exact HC | exact HE].
+    destruct c as [x f v p|x f v idx|x f v idx|x f v from to| |]; try exact I; try contradiction.
+    destruct Cv as (R & (M & _) & _). intros w Hw. exact (check_elem_of_typed m s x f w (proj1 (proj2 HK)) M Hw).
+Qed.
+
+(* closed under Compound *)
+Definition covered6 : state -> cmd -> Prop := okC m covered5.
+
+Theorem all_invariant_of_words s0 w :
+  K2 m s0 -> run_ok m covered6 (s0, [], []) w ->
+  ginv m (K2 m) (abs (st_run m (s0, empty_stack) w)).
+Proof.
+  apply (g2_invariant_of_words m (K2 m) covered6 (K2_obs_eq m)).
+  - exact (okC_exec m (K2 m) covered5 covered5_exec covered5_raise).
+  - exact (okC_raise m (K2 m) covered5 covered5_exec covered5_raise).
+Qed.
+
+Theorem all_k_undo_k_redo s0 w k :
+  K2 m s0 -> run_ok m covered6 (s0, [], []) w ->
+  let ms := st_run m (s0, empty_stack) w in
+  (k <= length (done_of (snd ms)))%nat ->
+  let ms' := st_run m ms (repeat SUndo k ++ repeat SRedo k) in
+  obs_eq (fst ms') (fst ms) /\ snd ms' = snd ms.
+Proof.
+  apply (g2_k_undo_k_redo_stack m (K2 m) covered6 (K2_obs_eq m)).
+  - exact (okC_exec m (K2 m) covered5 covered5_exec covered5_raise).
+  - exact (okC_raise m (K2 m) covered5 covered5_exec covered5_raise).
+Qed.
+
+End Lift2.
+
+(* ---------- non-vacuity: a metamodel with containment + container end, a plain reference collection and
+   attributes: kids (0) <-> parent (1), refs (2), n (3), ns (4); one class, four objects ---------- *)
+Definition ex_mm_all : mm :=
+  {| feats := [ {| f_owner := 0; f_isref := true; f_many := true; f_unique := true; f_cont := true;
+                   f_opp := Some 1; f_type := TClass 0; f_default := VNone |};
+                {| f_owner := 0; f_isref := true; f_many := false; f_unique := true; f_cont := false;
+                   f_opp := Some 0; f_type := TClass 0; f_default := VNone |};
+                {| f_owner := 0; f_isref := true; f_many := true; f_unique := true; f_cont := false;
+                   f_opp := None; f_type := TClass 0; f_default := VNone |};
+                {| f_owner := 0; f_isref := false; f_many := false; f_unique := true; f_cont := false;
+                   f_opp := None; f_type := TInt; f_default := VInt 0 |};
+                {| f_owner := 0; f_isref := false; f_many := true; f_unique := true; f_cont := false;
+                   f_opp := None; f_type := TInt; f_default := VNone |} ];
+     conf := [(0, 0)]; ocls := [0; 0; 0; 0]; enames := []; nres := 1 |}.
+
+Lemma ex_all_premises :
+  wf_mm ex_mm_all /\ ref_typed ex_mm_all /\ K2 ex_mm_all (init_state ex_mm_all).
+Proof.
+  assert (W : wf_mm ex_mm_all).
+  { constructor.
+    - intros f g. fcase f; intros H; inversion H; reflexivity.
+    - intros f g. fcase f; intros H; try reflexivity; discriminate.
+    - intros f. fcase f; intros H; try reflexivity; discriminate.
+    - intros f. fcase f; intros H _; try reflexivity; discriminate.
+    - intros f g. fcase f; intros H H2; try discriminate; inversion H; subst g; split; reflexivity. }
+  assert (D : ref_defaults_none ex_mm_all) by (intros f; fcase f; intros H H2; try reflexivity; discriminate).
+  split; [exact W|]. split; [|split; [split; [|split]|]].
+  - intros f. fcase f; intros H; try discriminate; eexists; reflexivity.
+  - exact (WF_init ex_mm_all W D).
+  - apply typed_init. intros f. fcase f; intros; reflexivity.
+  - intros x f R M _. cbn [vals init_state snd]. rewrite M. reflexivity.
+  - intros a f _. cbn [vals init_state snd]. destruct (f_many (fd ex_mm_all f)); [constructor | apply nodup_single].
+Qed.
+
+(* a child, two plain references (one of them to the child), a Move and a Remove on the plain collection,
+   an attribute, a Compound mixing a plain reference and an attribute collection; undo, undo, redo *)
+Definition ex_all_word : list sop :=
+  [SExec (CAdd 0 0 (VObj 1) None);
+   SExec (CAdd 0 2 (VObj 1) None); SExec (CAdd 0 2 (VObj 2) None);
+   SExec (CMove 0 2 VNone (Some 0%Z) 1%Z);
+   SExec (CRemove 0 2 (VObj 1) None);
+   SExec (CSet 0 3 (VInt 5) VNone);
+   SExec (CCompound [CAdd 1 2 (VObj 0) None; CAdd 0 4 (VInt 7) None]);
+   SUndo; SUndo; SRedo].
+
+Lemma ex_all_word_ok :
+  run_ok ex_mm_all (covered6 ex_mm_all) (init_state ex_mm_all, [], []) ex_all_word.
+Proof.
+  assert (T : opp_typed ex_mm_all 0 0) by (intros g H; inversion H; reflexivity).
+  assert (L2 : loose ex_mm_all 2) by (repeat split).
+  unfold ex_all_word. cbn [run_ok gop_ok fst].
+  split. { left. right; left. exists 1. split; [reflexivity|]. split; [reflexivity|]. split; [reflexivity|]. split; [unown | exact T]. }
+  split. { right. split; [reflexivity | exact L2]. }
+  split. { right. split; [reflexivity | exact L2]. }
+  split. { right. split; [reflexivity|]. split; [exact L2 | left; reflexivity]. }
+  split. { right. split; [reflexivity | exact L2]. }
+  split. { left. left. split; [left; reflexivity | reflexivity]. }
+  split.
+  { split; [|vm_compute; intros _; reflexivity].
+    split; [right; split; [reflexivity | exact L2]|]. split; [vm_compute; reflexivity|]. intros _.
+    split; [left; left; split; reflexivity|]. split; [vm_compute; reflexivity|]. intros _. exact I. }
+  repeat split.
+Qed.
+
+Example ex_all_word_result :
+  let ms := st_run ex_mm_all (init_state ex_mm_all, empty_stack) ex_all_word in
+  vals (fst ms) (0, 0) = [VObj 1] /\ vals (fst ms) (0, 2) = [VObj 2] /\ vals (fst ms) (0, 3) = [VInt 5] /\
+  vals (fst ms) (1, 2) = [] /\ vals (fst ms) (0, 4) = [] /\ cont (fst ms) 1 = Some (0, 0) /\ sidx (snd ms) = 5%Z /\
+  let ms1 := st_run ex_mm_all ms [SRedo] in
+  vals (fst ms1) (1, 2) = [VObj 0] /\ vals (fst ms1) (0, 4) = [VInt 7] /\
+  let ms2 := st_run ex_mm_all ms1 (repeat SUndo 6 ++ repeat SRedo 6) in
+  vals (fst ms2) (0, 2) = [VObj 2] /\ vals (fst ms2) (1, 2) = [VObj 0] /\ vals (fst ms2) (0, 0) = [VObj 1] /\
+  sidx (snd ms2) = 6%Z /\
+  let ms3 := st_run ex_mm_all ms1 (repeat SUndo 4) in
+  vals (fst ms3) (0, 2) = [VObj 1; VObj 2].
+Proof. vm_compute. repeat split; reflexivity. Qed.
